@@ -111,14 +111,15 @@ func (u *Unit) fieldComp(structT types.Type, f int) (name, sort string) {
 	return fmt.Sprintf("F_%s_%d", so, f), "(Array Int " + si.Fields[f].Sort + ")"
 }
 
+// Components are named by Go type (type-based alias analysis: cells of different Go types never alias).
 func (u *Unit) ptrComp(t types.Type) (name, sort string) {
 	so := u.S.sortOf(t)
-	return "P_" + mangle(so), "(Array Int " + so + ")"
+	return "P_" + u.S.typeName(t), "(Array Int " + so + ")"
 }
 
 func (u *Unit) elemComp(t types.Type) (name, sort string) {
 	so := u.S.sortOf(t)
-	return "E_" + mangle(so), "(Array Int (Array Int " + so + "))"
+	return "E_" + u.S.typeName(t), "(Array Int (Array Int " + so + "))"
 }
 
 func isStructVal(t types.Type) bool {
@@ -271,9 +272,10 @@ func (fr *Frame) alloc(st *State) string {
 func (u *Unit) mapComps(mt *types.Map) (hn, hs, vn, vs string) {
 	ks := u.S.sortOf(mt.Key())
 	es := u.S.sortOf(mt.Elem())
-	hn = "MH_" + mangle(ks)
+	tn := u.S.typeName(mt.Key()) + "_" + u.S.typeName(mt.Elem())
+	hn = "MH_" + tn
 	hs = "(Array Int (Array " + ks + " Bool))"
-	vn = "MV_" + mangle(ks) + "_" + mangle(es)
+	vn = "MV_" + tn
 	vs = "(Array Int (Array " + ks + " " + es + "))"
 	return
 }
@@ -310,7 +312,7 @@ func (fr *Frame) panicObl(b *ssa.BasicBlock, idx int, kind string, safe string, 
 		return
 	}
 	check := true
-	if kind == "nil" && (fr.fcTop() == nil || !fr.fcTop().CheckNil) {
+	if (kind == "nil" || kind == "nilmap") && (fr.fcTop() == nil || !fr.fcTop().CheckNil) {
 		check = false
 	}
 	if fr.fcTop() != nil && fr.fcTop().MayPanic && kind == "explicit" {
@@ -321,7 +323,7 @@ func (fr *Frame) panicObl(b *ssa.BasicBlock, idx int, kind string, safe string, 
 		pos := u.P.Fset.Position(ins.Pos())
 		o := u.oblige(name, "panic", fmt.Sprintf("no %s panic at %s:%d (%s)", kind, shortFile(pos.Filename), pos.Line, strings.TrimSpace(ins.String())), implies(reach, safe), nil)
 		_ = o
-	} else if kind == "nil" {
+	} else if kind == "nil" || kind == "nilmap" {
 		u.note("nil dereferences are assumed not to happen (memory safety of pointer arguments is a precondition)")
 	}
 	u.assert(implies(reach, safe))
